@@ -186,6 +186,35 @@ def run(ctx):
     for case, res, real, model in pipe.run_cases(ctx, cases):
         ctx.count("directed-net-indel")
         oracle(ctx, case, res, real)
+    # a linked adapter found with both parts (two rows, `;1` and `;2`) in one round and a further match in a later round (`--times 2/3`): the rows of the
+    # later round are split from what the *previous round* left - the read advances once per round, not once per row
+    cases = []
+    for _ in range(ctx.scale(40, 600)):
+        f_, b_, c_ = pipe.rs(rng, rng.randint(9, 12)), pipe.rs(rng, rng.randint(9, 12)), pipe.rs(rng, rng.randint(10, 12))
+        anch = rng.choice(["", "^"])
+        linked = f"a0={anch}{f_}...{b_}"
+        other = rng.choice([("-a", "a1=" + c_), ("-g", "a1=" + c_), ("-b", "a1=" + c_)])
+        argv = ["--no-index", rng.choice(["-a", "-g"]), linked, other[0], other[1], "--times", str(rng.choice([2, 2, 3])),
+                "--info-file", "{dir}/info.txt", "-o", "{dir}/o1.fastq"]
+        if rng.random() < 0.3:
+            argv += ["--action", rng.choice(["mask", "none"])]
+        reads = []
+        for i in range(8):
+            i1, i2 = pipe.rs(rng, rng.randint(4, 12)), pipe.rs(rng, rng.randint(4, 12))
+            kind = rng.random()
+            if kind < 0.6:
+                s_ = f_ + i1 + c_ + i2 + b_ + pipe.rs(rng, rng.randint(0, 6))      # both parts, the other adapter between them
+            elif kind < 0.8:
+                s_ = f_ + i1 + c_ + i2                                            # 5' part only
+            else:
+                s_ = f_ + i1 + b_ + i2
+            if not anch and rng.random() < 0.4:
+                s_ = pipe.rs(rng, rng.randint(1, 5)) + s_
+            reads.append((f"r{i}", s_, "".join(chr(33 + rng.randint(2, 40)) for _ in s_)))
+        cases.append(dict(argv=argv, paired=False, reads1=reads, reads2=None, with_qual=True, interleaved_in=False))
+    for case, res, real, model in pipe.run_cases(ctx, cases):
+        ctx.count("directed-linked-then-later-round")
+        oracle(ctx, case, res, real)
     # the info file of a run with worker processes and several chunks per worker (many reads with a match early in the file, few later: the text a
     # worker produces for a chunk shrinks from chunk to chunk): still one row group per read, in input order, each reconstructing its read
     for _ in range(ctx.scale(3, 20)):
